@@ -416,6 +416,9 @@ func (w *World) Jobs() []JobInfo {
 	return res
 }
 
+// Executing returns the number of job functions executing right now.
+func (w *World) Executing() int { return int(w.execDepth.Load()) }
+
 // Fired returns the number of jobs the harness has fired so far.
 func (w *World) Fired() int { return w.fired }
 
